@@ -187,7 +187,10 @@ func (fr *Frame) binop(op token.Token, x, y Val, xt, rt types.Type, pos token.Po
 		fr.safety("div0", mkNot(mkEq(b, "0")), pos)
 		_, signed := typeBits(rt)
 		if !signed {
-			return vInt(mkApp("div", a, b))
+			return vInt(ex.udiv(a, b))
+		}
+		if !isLit(b) {
+			return vInt(mkIte(mkAnd(mkApp(">=", a, "0"), mkApp(">", b, "0")), ex.udiv(a, b), mkApp(ex.sc.DeclareFun("sdiv", []Sort{SInt, SInt}, SInt), a, b)))
 		}
 		q := fmt.Sprintf("(let ((q!w (div (abs %s) (abs %s)))) (ite (= (>= %s 0) (> %s 0)) q!w (- q!w)))", a, b, a, b)
 		return vInt(wrapMod(rt, q))
@@ -195,7 +198,10 @@ func (fr *Frame) binop(op token.Token, x, y Val, xt, rt types.Type, pos token.Po
 		fr.safety("div0", mkNot(mkEq(b, "0")), pos)
 		_, signed := typeBits(rt)
 		if !signed {
-			return vInt(mkApp("mod", a, b))
+			return vInt(ex.umod(a, b))
+		}
+		if !isLit(b) {
+			return vInt(mkIte(mkAnd(mkApp(">=", a, "0"), mkApp(">", b, "0")), ex.umod(a, b), mkApp(ex.sc.DeclareFun("smod", []Sort{SInt, SInt}, SInt), a, b)))
 		}
 		r := fmt.Sprintf("(let ((r!w (mod (abs %s) (abs %s)))) (ite (>= %s 0) r!w (- r!w)))", a, b, a)
 		return vInt(r)
@@ -360,10 +366,7 @@ func (fr *Frame) exec(in ssa.Instruction) {
 		switch xt := in.X.Type().Underlying().(type) {
 		case *types.Slice:
 			fr.safety("index", mkAnd(mkApp("<=", "0", i.T), mkApp("<", i.T, x.Fs[2].T)), in.Pos())
-			idx := mkApp("+", x.Fs[1].T, i.T)
-			if x.Fs[1].T == "0" {
-				idx = i.T
-			}
+			idx := ex.sidx(x.Fs[1].T, i.T)
 			fr.vals[in] = Val{K: VPtr, P: &Ptr{Root: "elem", Base: xt.Elem(), Ref: x.Fs[0].T, Idx: idx, Elem: xt.Elem()}}
 		case *types.Pointer: // pointer to array
 			at := xt.Elem().Underlying().(*types.Array)
